@@ -183,7 +183,7 @@ class Interp:
             "reversed": PyFunc(lambda a: list(reversed(a)), "reversed", True),
             "any": PyFunc(lambda seq: any(self.truth(x) for x in list(seq)), "any", True),
             "all": PyFunc(lambda seq: all(self.truth(x) for x in list(seq)), "all", True), "hasattr": PyFunc(self._hasattr, "hasattr", True), "format": PyFunc(format, "format"),
-            "bin": PyFunc(bin, "bin"), "hex": PyFunc(hex, "hex"), "set": PyFunc(self._set, "set", True),
+            "bin": PyFunc(bin, "bin"), "hex": PyFunc(hex, "hex"), "set": PyFunc(self._set, "set", True), "frozenset": PyFunc(lambda *a: frozenset(self._set(*a)) if not isinstance(self._set(*a), Unk) else Unk("frozenset"), "frozenset", True),
             "object": ClassRef("object"), "type": PyFunc(self._type, "type", True), "id": PyFunc(lambda o: id(o), "id", True), "slice": PyFunc(slice, "slice"), "Ellipsis": Ellipsis,
             "filter": PyFunc(lambda f, seq: [x for x in list(seq) if self.truth(self.call(f, [x], {}) if f is not None else x)], "filter", True),
             "map": PyFunc(lambda f, *seqs: [self.call(f, list(xs), {}) for xs in zip(*[list(q) for q in seqs])], "map", True), "iter": PyFunc(self._iter, "iter", True), "next": PyFunc(self._next, "next", True),
@@ -431,6 +431,8 @@ class Interp:
     def _iterable(self, v):
         if isinstance(v, Obj) and "__iter__" in v.methods:
             return list(v.methods["__iter__"]())
+        if isinstance(v, Obj) and isinstance(v.attrs.get("__fields__"), list):
+            return tuple(v.attrs.get(f) for f in v.attrs["__fields__"])
         return v
 
     def _hasattr(self, v, name):
@@ -784,6 +786,9 @@ class Interp:
                 return v.methods["__getattr__"](name)
             if v.kind in self.instance_classes:
                 return self._instance_attr(v, name, node)
+            if v.kind == "module:re" and hasattr(re, name):
+                a = getattr(re, name)
+                return PyFunc(a, f"re.{name}") if callable(a) else a
             if v.kind.startswith("module:") and (name[:1].isupper() or name in ("ndarray",)):
                 return ClassRef(name)
             return Unk(f"{v.kind}.{name}")
@@ -814,6 +819,9 @@ class Interp:
             return ClassRef(type(v).__name__ if not isinstance(v, GenList) else "generator")
         if isinstance(v, (list, tuple, dict, str)) and hasattr(v, name):
             return PyFunc(getattr(v, name), name, True)
+        if isinstance(v, (re.Pattern, re.Match)) and hasattr(v, name):
+            a = getattr(v, name)
+            return PyFunc(a, f"re.{name}") if callable(a) else a
         if isinstance(v, (int, float, Fraction)):
             if name in ("e",):
                 return v
@@ -1003,11 +1011,11 @@ class Interp:
             if f.name == "str" and len(args) == 1 and not kwargs:
                 txt = _fmt(args[0])
                 return txt if txt is not None else Unk("str")
-            if f.name in PY_TYPES and _concrete(args):
+            if f.name in PY_TYPES and _concrete(args) and _concrete(kwargs):
                 try:
-                    return PY_TYPES[f.name](*args)
-                except Exception:
-                    raise Raised("ValueError", node)
+                    return PY_TYPES[f.name](*args, **kwargs)
+                except (ValueError, TypeError, OverflowError, KeyError) as exc:
+                    raise Raised(type(exc).__name__, node)
             return Obj("instance:" + f.name, {"args": list(args)})
         if isinstance(f, Obj) and f.call is not None:
             return f.call(*args, **kwargs)
@@ -1181,6 +1189,10 @@ class Interp:
         if isinstance(target, ast.Name):
             env.local[target.id] = value
         elif isinstance(target, (ast.Tuple, ast.List)):
+            if isinstance(value, Obj) and isinstance(value.attrs.get("__fields__"), list):
+                value = tuple(value.attrs.get(f) for f in value.attrs["__fields__"])      # a NamedTuple instance is a tuple
+            elif isinstance(value, Obj) and "__iter__" in value.methods:
+                value = list(value.methods["__iter__"]())
             if isinstance(value, (Unk, T, Obj)):
                 for t in target.elts:
                     self.assign(t, Unk("unpack"), env)
@@ -1388,7 +1400,7 @@ class Interp:
             if isinstance(op, (ast.Is, ast.IsNot)):
                 r = a is b
                 return r if isinstance(op, ast.Is) else not r
-            if isinstance(op, (ast.In, ast.NotIn)) and isinstance(b, (tuple, list, dict, set)) and not isinstance(a, Unk):
+            if isinstance(op, (ast.In, ast.NotIn)) and isinstance(b, (tuple, list, dict, set, frozenset)) and not isinstance(a, Unk):
                 r = any(a is x or (isinstance(x, T) and isinstance(a, T) and a == x) for x in b)
                 return r if isinstance(op, ast.In) else not r
             if isinstance(a, T) and isinstance(b, T) and isinstance(op, (ast.Eq, ast.NotEq)):
@@ -1412,6 +1424,11 @@ class Interp:
         if isinstance(base, Obj):
             if base.getitem is not None:
                 return base.getitem(idx)
+            if isinstance(base.attrs.get("__fields__"), list) and isinstance(idx, (int, slice)):
+                try:
+                    return tuple(base.attrs.get(f) for f in base.attrs["__fields__"])[idx]
+                except IndexError:
+                    raise Raised("IndexError", node)
             if base.kind in self.instance_classes:
                 fn = self._class_def(base.kind, "__getitem__")
                 if isinstance(fn, ast.FunctionDef):
